@@ -211,4 +211,8 @@ theorem C15_last_command_handled (c : Cons α) (r : Ring α) (hist : List α) (x
   rw [List.drop_append_of_le_length hmax]
   simp
 
+/-- the queue the runtime builds holds at least the 16 commands the property is stated for (the constant of lib.rs,
+regenerated from the source on every run, rounded up to a power of two as tokio does) -/
+theorem C15_capacity_as_stated : statedCapacity ≤ effectiveCapacity := by decide
+
 end Glonax.Thm.C15
